@@ -29,6 +29,44 @@ func build(starts, tasks int) *drv.Graph {
 	return g
 }
 
+// shaped: one start event, one task, then a place where flows are born and die close together:
+// "second-flow": the task's first outgoing flow has a false condition, its second one is taken
+// (the arriving flow ends right after starting the additional flow for its token);
+// "fork": a parallel fork into two tasks that end at their own end events;
+// "incl": an inclusive fork (both branches) with an inclusive join.
+func shaped(shape string) *drv.Graph {
+	g := drv.NewGraph("c02_" + shape)
+	s, t := g.Add(drv.Start, "start1"), g.Add(drv.Task, "t1_1")
+	g.Link(s, t, nil)
+	switch shape {
+	case "second-flow":
+		dead, deadEnd := g.Add(drv.Task, "never"), g.Add(drv.End, "endNever")
+		next, e := g.Add(drv.Task, "t1_2"), g.Add(drv.End, "end1")
+		g.Link(t, dead, drv.Const(false))
+		g.Link(t, next, drv.Const(true))
+		g.Link(dead, deadEnd, nil)
+		g.Link(next, e, nil)
+	case "fork":
+		f := g.Add(drv.AND, "F")
+		g.Link(t, f, nil)
+		for i := 1; i <= 2; i++ {
+			b, e := g.Add(drv.Task, fmt.Sprintf("b%d", i)), g.Add(drv.End, fmt.Sprintf("bend%d", i))
+			g.Link(f, b, nil)
+			g.Link(b, e, nil)
+		}
+	case "incl":
+		f, j, e := g.Add(drv.OR, "OF"), g.Add(drv.OR, "OJ"), g.Add(drv.End, "end1")
+		g.Link(t, f, nil)
+		for i := 1; i <= 2; i++ {
+			b := g.Add(drv.Task, fmt.Sprintf("b%d", i))
+			g.Link(f, b, drv.Const(true))
+			g.Link(b, j, nil)
+		}
+		g.Link(j, e, nil)
+	}
+	return g
+}
+
 // waiter script: when the wait is issued (after how many answers; -1 = after completion was
 // observed) and whether/when its context is cancelled (after how many answers; -1 = never).
 type waiter struct {
@@ -237,6 +275,29 @@ func init() {
 						}
 						out = append(out, s)
 					}
+				}
+			}
+		}
+		for _, shape := range []string{"second-flow", "fork", "incl"} {
+			g := shaped(shape)
+			for si, sc := range scripts {
+				if si >= 4 && !thorough {
+					continue
+				}
+				bounds := []int{0, 1}
+				if thorough && si < 2 {
+					bounds = append(bounds, 2)
+				}
+				for _, d := range bounds {
+					s := &h.Scn{Name: fmt.Sprintf("C02/%s/[%s]/d%d", shape, sc, d), Body: body(g, sc, "C02/one-start"), Opts: verifrt.Options{Bound: d, UseCache: true}}
+					s.Weight = 3 * (1 + 2000*d)
+					if d == 1 {
+						s.Split = 4
+					}
+					if d >= 2 {
+						s.Split = 16
+					}
+					out = append(out, s)
 				}
 			}
 		}
